@@ -19,11 +19,11 @@ CLAIMED = {
  "C14": ("ignore options: 64 subsets x delivery modes x per-category difference flags; nothing reported in ignored categories, round trip on the rest", "6.C14"),
  "C16": ("terminal rendering never fails; emptiness / non-emptiness / no ANSI without colour", "6.C16"),
  "C17": ("narrow: working-directory restoration and entry filtering/pairing kernel of changed_notebooks over a nondeterministic git stub", "6.C17"),
+ "C18": ("narrow: configuration kernel of the git integration set-up commands (4 tools x enable/disable/--set-default, config-git) through their real main(); git config replaced by a two-scope key/value model validated against the real git binary on each path's model instance; pre-existing setting values are symbolic strings, so idempotence, 'only nbdime's own entries are written' and 'a default tool naming another program is kept' are decided by z3 for every value", "6.C18"),
  "C19": ("option resolution against an executable model of docs/source/config.rst with symbolic presence/values per (directory, section, option)", "6.C19"),
 }
 NA = {
  "C15": "subject is ~2000 lines of TypeScript; no TypeScript compiler or JavaScript symbolic executor in the sandbox, and a hand translation into SMT would be a model of the code, not the code (DESIGN.md section 7)",
- "C18": "decided by the external git binary's config/attribute semantics and the file system; with those stubbed the remaining nbdime code is fixed subprocess sequences, so a solver would quantify over my model of git (DESIGN.md section 7)",
  "C20": "jupyter_server, jinja2 and requests are not installed and every input crosses tornado/json/file-system C boundaries that force concrete values; the library calls behind the endpoints are decided under C01, C09, C12 (DESIGN.md section 7)",
 }
 here = os.path.dirname(os.path.dirname(os.path.abspath(__file__)))
